@@ -7,6 +7,7 @@ import DEvo.Sql.Merge
 import DEvo.Sql.Rebuild
 import DEvo.Sql.Schema
 import DEvo.Ser.PyRoundTrip
+import DEvo.Ser.FieldAttrs
 import DEvo.Run.Tx
 import DEvo.Run.History
 import DEvo.Run.Migrations
@@ -192,6 +193,20 @@ def handle (j : Json) : Except String Json := do
       ("fresh", Json.mkObj (ms.map (fun m => (m.table, tj (Sql.fresh sqliteEnv m))))),
       ("rebuilt", Json.mkObj (ms.map (fun m => (m.table, tj (Sql.rebuilt sqliteEnv m))))),
       ("plain", Json.mkObj (ms.map (fun m => (m.table, toJson (Sql.plainModel m)))))])
+  | "load_attrs" =>
+    -- FieldSignature.deserialize: which stored attributes come back (values are JSON texts, none = null)
+    let known ← Codec.strList (← j.getObjVal? "known")
+    let storedJ ← (← j.getObjVal? "stored").getArr?
+    let stored : List (String × Option String) ← storedJ.toList.mapM (fun p => do
+      let q ← p.getArr?
+      match q.toList with
+      | [k, Json.null] => do pure (← k.getStr?, none)
+      | [k, v] => do pure (← k.getStr?, some (← v.getStr?))
+      | _ => throw "bad stored entry")
+    let cfg : Ser.AttrLoadCfg := ⟨DEvo.Generated.attrLoadByPresence⟩
+    let out := Ser.loadAttrs cfg (fun (v : Option String) => v.isNone) DEvo.Generated.attrAliases known stored
+    pure (Json.mkObj [("loaded", Json.arr (out.map (fun (kv : String × Option String) =>
+      Json.arr #[Json.str kv.1, match kv.2 with | none => Json.null | some t => Json.str t])).toArray)])
   | "rows_after" =>
     -- sequential rebuilds of one table: ops -> merged groups -> plan -> copy
     let aligned ← j.getObjValAs? Bool "aligned"
